@@ -20,6 +20,7 @@ def run(tier, seed, replay):
         rng.shuffle(full); rng.shuffle(allc)
         nfull, nrest = (2500, 2500) if thorough else (350, 350)
         cases = full[:nfull] + allc[:nrest]
+        rng.shuffle(cases)   # both halves (see below) get fully committed and mixed-flag commits alike
         mc_s, mc_t = mc.distinct, mc.generated
     cpath = os.path.join(wd, "cases.ndjson")
     open(cpath, "w").write("\n".join(json.dumps(c) for c in cases) + "\n")
